@@ -288,6 +288,7 @@ def skeletons(tier):
     # rich text: each text field in turn gets 2 code points over all of Unicode
     rich_targets = [
         ("bind_request", dict(kind="bind_request", auth="sasl"), 3),
+        ("bind_request_simple", dict(kind="bind_request", auth="simple"), 2),
         ("bind_response", dict(kind="bind_response", nref=1, creds=False), 3),
         ("search_request", dict(kind="search_request", filter=["ext", True, True, False], nattr=1), 4),
         ("search_entry", dict(kind="search_entry", attrs=[1]), 2),
